@@ -287,16 +287,13 @@ func (r restServerProtocol) protocol() Protocol {
 func (r restServerProtocol) addProtocolRequestHeaders(meta requestMeta, headers http.Header) {
 	// TODO: don't set content-type on no body requests.
 	headers["Content-Type"] = []string{contentRestPrefix + meta.codec}
-	if meta.compression != "" {
-		headers["Content-Encoding"] = []string{meta.compression}
-	}
-	if len(meta.acceptCompression) != 0 {
-		headers["Accept-Encoding"] = []string{strings.Join(meta.acceptCompression, ", ")}
-	}
+	setOrDelete(headers, "Content-Encoding", meta.compression)
+	setOrDelete(headers, "Accept-Encoding", strings.Join(meta.acceptCompression, ", "))
+	timeoutStr := ""
 	if meta.hasTimeout {
-		value := restEncodeTimeout(meta.timeout)
-		headers["X-Server-Timeout"] = []string{value}
+		timeoutStr = restEncodeTimeout(meta.timeout)
 	}
+	setOrDelete(headers, "X-Server-Timeout", timeoutStr)
 }
 
 func (r restServerProtocol) extractProtocolResponseHeaders(statusCode int, headers http.Header) (responseMeta, responseEndUnmarshaller, error) {
